@@ -171,7 +171,7 @@ struct Objs {
   LambertConformalConic lcc1, lcc2;
   AlbersEqualArea alb1, alb2;
   Gnomonic gn; AzimuthalEquidistant aeq; CassiniSoldner cs;
-  Geocentric gc1; LocalCartesian lc1;
+  Geocentric gc1, gc2; LocalCartesian lc1;      // gc2: prolate
   Ellipsoid el1; AuxLatitude aux1; DAuxLatitude daux1;
   EllipticFunction ef1, ef2;
   NormalGravity ng1;
@@ -189,7 +189,7 @@ struct Objs {
         r1(A1, F1, false), r1x(A1, F1, true), rl1(r1.Line(33.5, -71.25, 41.75)), rlw(rw.Line(-12.25, 100.5, -130.0)),
         tm1(A1, F1, 0.9996), tme1(A1, F1, 0.9996, false), tme1x(A1, F1, 0.9996, true), tme2(A3, F4(), 1.0, false), ps1(A1, F1, 0.994),
         lcc1(A1, F1, 40.0, 60.0, 1.0), lcc2(A1, F1, -35.0, 0.9999), alb1(A1, F1, 40.0, 60.0, 1.0), alb2(A1, F1, -40.0, -60.0, 1.0),
-        gn(g1), aeq(g1), cs(33.5, -71.25, g1), gc1(A1, F1), lc1(33.5, -71.25, 120.0, gc1), el1(A1, F1), aux1(A1, F1),
+        gn(g1), aeq(g1), cs(33.5, -71.25, g1), gc1(A1, F1), gc2(A2, -1 / 50.0), lc1(33.5, -71.25, 120.0, gc1), el1(A1, F1), aux1(A1, F1),
         daux1(A1, F1), ef1(0.3, 0.2), ef2(-2.5, 0.7), ng1(A1, 3.986004418e14, 7.292115e-5, F1, true),
         sh(hc.C, hc.S, hc.N, A1, SphericalHarmonic::FULL),
         sh1(hc.C, hc.S, hc.N, hc.C1, hc.S1, hc.N1, A1, SphericalHarmonic1::SCHMIDT),
